@@ -15,6 +15,7 @@
 (*         "for"  for t in ((n, 1), (n, 2)):    (t = "" : no variable)     *)
 (*         "whl"  while _w(n, c):       at most two rounds per entry       *)
 (*         "brk"  break                 "cnt"  continue                    *)
+(*         "rtn"  return               (no value: a guard clause)          *)
 (*      t  assigned variable, r set of variables read, c condition input   *)
 (*                                                                         *)
 (* Values are provenance tuples, so a wrong data flow changes the output.  *)
@@ -36,7 +37,10 @@ CONSTANTS MaxLines,     \* lines per body
           StmtOn,       \* BOOLEAN: statement extraction actions
           ExprOn,       \* BOOLEAN: expression extraction actions
           BackEdges,    \* BOOLEAN: liveness follows loop back edges (TRUE = the oracle; FALSE only to show sensitivity)
-          RequireDA     \* BOOLEAN: parameters must be definitely assigned at the region (TRUE = the oracle)
+          RequireDA,    \* BOOLEAN: parameters must be definitely assigned at the region (TRUE = the oracle)
+          ClassOn,      \* BOOLEAN: statement extraction with similar=TRUE inside a class with sibling methods
+          RewriteAll,   \* BOOLEAN: every sibling is rewritten (FALSE = the oracle; TRUE only to show sensitivity)
+          CheckStale    \* BOOLEAN: one definition for all matches needs OneDefOK (TRUE = the oracle)
 
 Vars     == {"a", "b"}
 Conds    == {"c1", "c2"}
@@ -64,13 +68,13 @@ Shapes ==
   \cup { Shape(k, "", r, "") : k \in ({"prt", "ret"} \cap Kinds), r \in SUBSET Vars }
   \cup { Shape(k, "", {}, c) : k \in ({"if", "whl"} \cap Kinds), c \in Conds }
   \cup { Shape(k, t, {}, "") : k \in ({"for"} \cap Kinds), t \in (Vars \cup {""}) }
-  \cup { Shape(k, "", {}, "") : k \in ({"else", "brk", "cnt"} \cap Kinds) }
+  \cup { Shape(k, "", {}, "") : k \in ({"else", "brk", "cnt", "rtn"} \cap Kinds) }
 
 MkLine(sh, n, d) == [n |-> n, d |-> d, k |-> sh.k, t |-> sh.t, r |-> sh.r, c |-> sh.c]
 
 IsHeader(l) == l.k \in {"if", "else", "for", "whl"}
 IsLoop(l)   == l.k \in {"for", "whl"}
-Abrupt(l)   == l.k \in {"ret", "brk", "cnt"}
+Abrupt(l)   == l.k \in {"ret", "rtn", "brk", "cnt"}
 Simple(l)   == l.k \in {"asg", "aug", "prt", "ret"}
 
 \* may a line of shape sh be appended to s at depth d
@@ -136,7 +140,7 @@ NoEscape(b, i, j) ==
      \E p \in i..(m-1) : IsLoop(b[p]) /\ BlockEnd(b, p) >= m
 
 \* a return may only be the last statement of the run itself
-RetOK(b, i, j) == \A m \in i..j : b[m].k = "ret" => (m = j /\ b[m].d = b[i].d)
+RetOK(b, i, j) == \A m \in i..j : b[m].k \in {"ret", "rtn"} => (m = j /\ b[m].d = b[i].d)
 
 -----------------------------------------------------------------------------
 (* Interpreter                                                             *)
@@ -182,7 +186,7 @@ XDefVal(l, env) ==
   ELSE <<l.n, Group(l.r, env, "", "")>>
 XDefNeeds(l) == IF Xs(l).sub = "name" THEN {Xs(l).v} ELSE l.r
 
-NoHelper == [params |-> {}, results |-> {}, ret |-> FALSE, body |-> <<>>]
+NoHelper == [params |-> {}, results |-> {}, ret |-> FALSE, body |-> <<>>, recvok |-> TRUE]
 
 RECURSIVE ExecRange(_, _, _, _, _, _), ExecStmt(_, _, _, _, _),
           ExecFor(_, _, _, _, _, _), ExecWhl(_, _, _, _, _)
@@ -206,6 +210,7 @@ ExecStmt(b, H, i, inp, st) ==
     [] l.k = "ret" ->
          IF Needs(l) \subseteq st.bnd
          THEN [st EXCEPT !.sig = "ret", !.rv = ExprVal(l, st.env)] ELSE Raise(st)
+    [] l.k = "rtn" -> [st EXCEPT !.sig = "ret", !.rv = <<>>]
     [] l.k = "xdef" ->
          IF XDefNeeds(l) \subseteq st.bnd THEN Bind(st, XVar, XDefVal(l, st.env)) ELSE Raise(st)
     [] l.k = "brk" -> [st EXCEPT !.sig = "brk"]
@@ -218,7 +223,8 @@ ExecStmt(b, H, i, inp, st) ==
     [] l.k = "for" -> ExecFor(b, H, i, 1, inp, st)
     [] l.k = "whl" -> ExecWhl(b, H, i, inp, st)
     [] l.k = "call" ->
-         IF ~(H.params \subseteq st.bnd) THEN Raise(st)   \* arguments are evaluated at the call
+         IF ~H.recvok THEN Raise(st)                     \* the receiver (self) is not a name here
+         ELSE IF ~(H.params \subseteq st.bnd) THEN Raise(st)   \* arguments are evaluated at the call
          ELSE
            LET st0 == [st EXCEPT !.bnd = H.params]
                st1 == ExecRange(H.body, NoHelper, 1, Len(H.body), inp, st0)
@@ -277,6 +283,7 @@ LBStmt(be, b, i, X, Xb, Xc) ==
     [] l.k = "aug" -> X \cup {l.t} \cup l.r
     [] l.k = "prt" -> X \cup l.r
     [] l.k = "ret" -> l.r
+    [] l.k = "rtn" -> {}
     [] l.k = "brk" -> Xb
     [] l.k = "cnt" -> Xc
     [] l.k = "if"  -> {l.c} \cup LB(be, b, i + 1, e, X, Xb, Xc)
@@ -342,7 +349,7 @@ Written(b, i, j) == {b[m].t : m \in {m2 \in i..j : b[m2].k \in {"asg", "aug", "f
 -----------------------------------------------------------------------------
 (* Statement extraction                                                    *)
 
-EndsInRet(b, j) == b[j].k = "ret"
+EndsInRet(b, j) == b[j].k \in {"ret", "rtn"}
 
 \* values the new function hands back: possibly written in the region and
 \* possibly read afterwards before being rewritten
@@ -432,14 +439,35 @@ ShapeOf(b, i, j, v) ==
 
 Dedent(s, by) == [k \in 1..Len(s) |-> [s[k] EXCEPT !.d = @ - by]]
 
-HelperOf(b, i, j) ==
+HelperRecv(b, i, j, recvok) ==
   [params |-> Params(b, i, j), results |-> Results(b, i, j), ret |-> EndsInRet(b, j),
-   body |-> Dedent(SubSeq(b, i, j), b[i].d)]
+   body |-> Dedent(SubSeq(b, i, j), b[i].d), recvok |-> recvok]
+HelperOf(b, i, j) == HelperRecv(b, i, j, TRUE)
 
 CallLine(d) == [n |-> 0, d |-> d, k |-> "call", t |-> "", r |-> {}, c |-> ""]
 
 MainAfter(b, i, j) ==
   SubSeq(b, 1, i - 1) \o <<CallLine(b[i].d)>> \o SubSeq(b, j + 1, Len(b))
+
+-----------------------------------------------------------------------------
+(* The same statements in sibling methods of a class (similar = TRUE).     *)
+(* The body is the body of a method of kind hk of class K; K also has one  *)
+(* sibling of every kind whose body is the same text.  The new function    *)
+(* has the kind of its host: extracted from a normal method it is called   *)
+(* through self, from a static or class method through the class name.     *)
+(* A duplicate in a sibling may be replaced by the call only where the     *)
+(* receiver is a name: self exists in normal methods only.                 *)
+
+ClassKinds == {"method", "smethod", "cmethod"}
+Receiver(hk) == IF hk = "method" THEN "self" ELSE "K"
+ReceiverIsName(sk, recv) == recv = "K" \/ sk = "method"
+SiblingRewritten(hk, sk) == RewriteAll \/ ReceiverIsName(sk, Receiver(hk))
+
+\* observable of the sibling of kind sk after extracting i..j from a host of kind hk
+SiblingRun(b, initB, i, j, hk, sk, inp) ==
+  IF SiblingRewritten(hk, sk)
+  THEN Run(MainAfter(b, i, j), HelperRecv(b, i, j, ReceiverIsName(sk, Receiver(hk))), initB, inp)
+  ELSE Run(b, NoHelper, initB, inp)
 
 -----------------------------------------------------------------------------
 (* Expression extraction                                                   *)
@@ -489,7 +517,7 @@ OneDefOK(b, initB, i, s, M) ==
 ExprClass(b, initB, i, s, via, sim) ==
   IF ~(SubReads(b[i], s) \subseteq DAat(b, initB, i)) THEN "unbound"
   ELSE IF via = "call" \/ ~sim THEN "ok"
-  ELSE IF OneDefOK(b, initB, i, s, Matches(b, i, s)) THEN "ok"
+  ELSE IF ~CheckStale \/ OneDefOK(b, initB, i, s, Matches(b, i, s)) THEN "ok"
   ELSE IF ~(SubReads(b[i], s) \subseteq DAat(b, initB, DefPoint(b, Matches(b, i, s)))) THEN "unbound"
   ELSE "stale"
 
@@ -543,9 +571,19 @@ ExtractExpr(i, s, via, sim) ==
   /\ phase' = "done"
   /\ UNCHANGED <<body, init>>
 
+ExtractSim(i, j, hk) ==
+  /\ ClassOn
+  /\ phase = "build"
+  /\ Complete(body)
+  /\ StmtEnabled(body, init, i, j)
+  /\ ext' = [kind |-> "class", i |-> i, j |-> j, hk |-> hk]
+  /\ phase' = "done"
+  /\ UNCHANGED <<body, init>>
+
 Next ==
   \/ \E sh \in Shapes, d \in 0..MaxDepth : AddLine(sh, d)
   \/ \E i \in 1..Len(body), j \in 1..Len(body) : Extract(i, j)
+  \/ \E i \in 1..Len(body), j \in 1..Len(body), hk \in ClassKinds : ExtractSim(i, j, hk)
   \/ \E i \in 1..Len(body), sub \in {"whole", "group", "name"}, v \in (Vars \cup {""}),
         via \in {"var", "call"}, sim \in BOOLEAN :
         ExtractExpr(i, [sub |-> sub, v |-> v], via, sim)
@@ -574,6 +612,13 @@ ExtractSound ==
      LET H == HelperOf(body, ext.i, ext.j)
          M == MainAfter(body, ext.i, ext.j)
      IN \A inp \in Valuations : Run(M, H, init, inp) = Run(body, NoHelper, init, inp)
+
+\* replacing the duplicates in the siblings where the receiver is a name
+\* (and only there) preserves what every method of the class does
+SiblingSound ==
+  (phase = "done" /\ ext.kind = "class") =>
+     \A sk \in ClassKinds : \A inp \in Valuations :
+        SiblingRun(body, init, ext.i, ext.j, ext.hk, sk, inp) = Run(body, NoHelper, init, inp)
 
 \* the new function is closed: parameters are bound at the call
 CallArgsBound ==
